@@ -478,3 +478,31 @@ CH_STAGGER = {"profile": "chaos", "opts": {"p_batch_loader": 0, "stagger_sources
 PROPS["C18"]["streams"] = PROPS["C18"]["streams"] + [G_STAGGER, CH_STAGGER]
 PROPS["C02"]["streams"] = PROPS["C02"]["streams"] + [G_STAGGER]
 PROPS["C05"]["streams"] = PROPS["C05"]["streams"] + [G_STAGGER]
+
+# ------------------------------------------------------------------ worlds instantiated by the project's own loaders
+# (the spec is rendered as YAML/JSON -- optional attributes spelled out or left out -- and loaded by WorkloadLoader /
+# WorkerLoader; the simulator gets the real loader object; expectations still come from the spec)
+G_LOADER = {"profile": "greedy", "opts": {"p_batch_loader": 0, "via_loader": True, "p_conditionals": 0.5}}
+for _p in ("C02", "C05", "C06", "C07", "C08", "C18"):
+    PROPS[_p]["streams"] = PROPS[_p]["streams"] + [G_LOADER]
+
+# ------------------------------------------------------------------ C15/C12: requests whose SLO only the faster strategies can meet
+CW_SLO = {"profile": "clockwork", "opts": {"p_short_slo": 0.7}}
+PROPS["C15"]["streams"] = [CW, CW_SLO]
+PROPS["C12"]["streams"] = PROPS["C12"]["streams"] + [CW_SLO]
+
+# ------------------------------------------------------------------ conditionals with a side output (a sink on one arm only)
+G_COND_OUT = {"profile": "greedy", "opts": {"p_batch_loader": 0, "p_conditionals": 1.0, "p_side_output": 0.7,
+                                            "p_enforce": 0.1, "p_drop": 0.1}}
+CH_COND_OUT = {"profile": "chaos", "opts": {"p_batch_loader": 0, "p_conditionals": 1.0, "p_side_output": 0.7}}
+PROPS["C07"]["streams"] = PROPS["C07"]["streams"] + [G_COND_OUT, CH_COND_OUT]
+for _p in ("C05", "C06", "C08", "C18"):
+    PROPS[_p]["streams"] = PROPS[_p]["streams"] + [G_COND_OUT]
+
+# ------------------------------------------------------------------ requests that name a resource instance by its id, next to generic ones
+G_IDS = {"profile": "greedy", "opts": {"p_batch_loader": 0, "p_id_specific": 0.5}}
+CH_IDS = {"profile": "chaos", "opts": {"p_batch_loader": 0, "p_id_specific": 0.5}}
+PROPS["C01"]["streams"] = PROPS["C01"]["streams"] + [G_IDS, CH_IDS]
+PROPS["C04"]["streams"] = PROPS["C04"]["streams"] + [G_IDS]
+PROPS["C08"]["streams"] = PROPS["C08"]["streams"] + [G_IDS]
+PROPS["C13"]["streams"] = PROPS["C13"]["streams"] + [dict(G_IDS, opts=dict(G_IDS["opts"], single_worker_pools=True))]
